@@ -6,7 +6,7 @@ WT=$1; P=$2; shift; shift
 git -C $WT checkout -q -- . ; git -C $WT apply $P || { echo APPLY-FAILED; exit 2; }
 for c in "$@"; do
   out=$(cd /verif && VERIF_REPO=$WT timeout 2400 ./check $c --tier quick 2>&1); rc=$?
-  echo "== $c rc=$rc"; echo "$out" | grep -E "^VIOLATION|^KNOWN|OK:" | head -3; echo "$out" | grep -A1 "^VIOLATION" | grep -v "^VIOLATION\|^--" | head -2 | cut -c1-330
+  echo "== $c rc=$rc"; echo "$out" | grep -E "^VIOLATION|OK:" | head -3; echo "$out" | grep -A1 "^VIOLATION" | grep -v "^VIOLATION\|^--" | head -2 | cut -c1-330
 done
 git -C $WT checkout -q -- .
 cd /verif && for t in translators/*2coq.py; do python3 $t /repo coq/Gen >/dev/null; done
